@@ -664,3 +664,138 @@ func (c *Ctx) rulesR3hello() {
 		c.undecided("C10.zero: no zeroing store into the exported time found in RemoteHello")
 	}
 }
+
+// rulesR3neg: a slice bound derived from a loop index minus a constant cannot
+// go negative.
+func (c *Ctx) rulesR3neg() {
+	c.rule("C08.neg", "in pkg/machine a slice bound of the form <range index> - k (k > 0) is clamped (max) or dominated by a comparison of that index: the first iteration otherwise slices [:-1] and panics — in captureStackTrace that panic happens inside the handler goroutine's deferred recover and takes the whole process down instead of raising Exception")
+	n, bad := 0, 0
+	for _, f := range c.Funcs {
+		if topFunc(f).Pkg == nil || relPkg(topFunc(f).Pkg.Pkg.Path()) != pm {
+			continue
+		}
+		for _, b := range f.Blocks {
+			for _, ins := range b.Instrs {
+				sl, ok := ins.(*ssa.Slice)
+				if !ok {
+					continue
+				}
+				for _, bound := range []ssa.Value{sl.Low, sl.High} {
+					bo, ok := bound.(*ssa.BinOp)
+					if !ok || bo.Op != token.SUB {
+						continue
+					}
+					k, isK := constInt(bo.Y)
+					if !isK || k <= 0 {
+						continue
+					}
+					// X is the range index (phi+1) of an enclosing loop
+					idx := bo.X
+					isRange := false
+					if b2, ok := idx.(*ssa.BinOp); ok && b2.Op == token.ADD {
+						if ph, ok := b2.X.(*ssa.Phi); ok && ph.Comment == "rangeindex" {
+							isRange = true
+						}
+					}
+					if !isRange {
+						continue
+					}
+					n++
+					guarded := false
+					for _, g := range guardsOf(b) {
+						cond, _ := stripNot(g.Cond)
+						if cb, ok := cond.(*ssa.BinOp); ok {
+							// a comparison of the index with a constant (i > 0, i != 0, i >= k): the loop's own
+							// upper-bound test (i < len) says nothing about the lower bound
+							_, k1 := constInt(cb.X)
+							_, k2 := constInt(cb.Y)
+							if (cb.X == idx && k2) || (cb.Y == idx && k1) {
+								switch cb.Op {
+								case token.GTR, token.GEQ, token.LSS, token.LEQ, token.NEQ, token.EQL:
+									guarded = true
+								}
+							}
+						}
+					}
+					if !guarded {
+						bad++
+					}
+					c.check(guarded, "C08.neg", fmt.Sprintf("%s: slice bound (index-%d)#%d cannot be negative", funcKey(f), k, n), ins.Pos(), "the bound is the range index minus a constant with no dominating comparison of the index: on the first iteration it is negative and the slice expression panics")
+				}
+			}
+		}
+	}
+	c.ok("C08.neg", fmt.Sprintf("%d index-minus-constant slice bounds in pkg/machine, %d unguarded", n, bad), token.NoPos, "scan of every slice expression")
+}
+
+func (c *Ctx) rulesR3push() {
+	c.rule("C09.sent", "pushUpdateLatest declines to send (returns without Notify) only when the diff is empty in all three parts — no index, queue-tick diff 0, machine-tick diff 0: its caller memorizes the snapshot as pushed whenever it returns nil, and the queue tick is part of the checksum of every later update, so a skipped queue-tick-only change (mutation on an untracked state, canceled mutation) leaves the mirror permanently rejecting updates")
+	c.rule("C09.hello", "Server.RemoteHello, which rebuilds the diff base (lastPushData) from a fresh export, also gives the source tracer that snapshot when it has none of its own (dataLatest): diffing the empty placeholder against the hello snapshot sends nothing and then memorizes the placeholder as the base")
+	pl := c.fnOpt(prpc + ":Server.pushUpdateLatest")
+	if pl != nil {
+		var fQ, fM, fI *types.Var
+		if nt := c.namedType(prpc, "MsgSrvUpdate"); nt != nil {
+			st := nt.Underlying().(*types.Struct)
+			for i := 0; i < st.NumFields(); i++ {
+				switch st.Field(i).Name() {
+				case "QueueTick":
+					fQ = st.Field(i)
+				case "MachTick":
+					fM = st.Field(i)
+				case "Indexes":
+					fI = st.Field(i)
+				}
+			}
+		}
+		calc := c.sitesIn(pl, prpc+":calcUpdate")
+		notif := c.sitesIn(pl, "method:Notify")
+		n := 0
+		for i, r := range returnsOf(pl) {
+			// returns after the diff was computed that are not preceded by the send
+			afterCalc := false
+			for _, s := range calc {
+				if dominatesInstr(s, r) {
+					afterCalc = true
+				}
+			}
+			sent := false
+			for _, s := range notif {
+				if dominatesInstr(s, r) {
+					sent = true
+				}
+			}
+			if !afterCalc || sent {
+				continue
+			}
+			n++
+			has := map[*types.Var]bool{}
+			for _, g := range guardsOf(r.Block()) {
+				valueTree(g.Cond, 6, func(x ssa.Value) {
+					if fl := fieldOf(x); fl != nil {
+						has[fl] = true
+					}
+					if fl := loadOfField(x); fl != nil {
+						has[fl] = true
+					}
+				})
+			}
+			good := fQ != nil && fM != nil && fI != nil && has[fQ] && has[fM] && has[fI]
+			c.check(good, "C09.sent", fmt.Sprintf("pushUpdateLatest: silent return%s requires an empty diff in indexes, queue tick and machine tick", nth(i)), r.Pos(),
+				fmt.Sprintf("the no-send return is decided without looking at all of Indexes/QueueTick/MachTick (looked at: Indexes %v, QueueTick %v, MachTick %v)", has[fI], has[fQ], has[fM]))
+		}
+		if n < 1 {
+			c.undecided("C09.sent: pushUpdateLatest has no silent return after calcUpdate")
+		}
+	}
+	rh := c.fnOpt(prpc + ":Server.RemoteHello")
+	fLP := c.field(prpc, "Server", "lastPushData")
+	fDL := c.field(prpc, "sourceTracer", "dataLatest")
+	if rh != nil && fLP != nil && fDL != nil {
+		touchesBase := len(readsOfFieldIn(rh, fLP))+len(writesOfFieldIn(rh, fLP)) > 0
+		if !touchesBase {
+			c.undecided("C09.hello: RemoteHello no longer touches lastPushData")
+		} else {
+			c.check(len(writesOfFieldIn(rh, fDL)) > 0, "C09.hello", "RemoteHello hands the hello snapshot to the tracer", rh.Pos(), "lastPushData is rebuilt from the export but sourceTracer.dataLatest keeps its placeholder")
+		}
+	}
+}
